@@ -7,7 +7,7 @@ import math
 
 import numpy as np
 
-from ..kernel import chance, pick, wpick, adigest, sdigest, scribble
+from ..kernel import chance, pick, wpick, adigest, sdigest, scribble, Held
 from ..simrng import SimRNG, global_state_token, global_state_now
 from .. import present
 
@@ -728,6 +728,8 @@ def do_cholesky(run, op):
 
     if not judge_draw(got, n, "first draw"):
         return
+    kept = Held()
+    kept.hold(got)
     # further draws from the SAME sampler object: each is mean + L z for the deviates of that draw
     if op["api"] == "class":
         for t, n_more in enumerate(op.get("more", [])):
@@ -739,7 +741,13 @@ def do_cholesky(run, op):
                 run.fail("rng.chol.raises", feats, "draw #%d from the same CholeskySampler raised %r" % (t + 2, e))
                 return
             run.event(0, "cholesky_more", "%r" % (n_more,), "ok", adigest(np.asarray(g2)))
+            # what the earlier draws returned is still in the caller's hands: a later draw must not have changed it
+            if kept.changed() is not None:
+                run.fail("rng.result_overwritten", dict(feats, draw=t + 2),
+                         "draw #%d from the same CholeskySampler changed the array an earlier draw had returned" % (t + 2))
+                return
             ok = judge_draw(g2, n_more, "draw #%d from the same sampler" % (t + 2))
+            kept.hold(g2)
             run._outputs.append(g2)
             if not ok:
                 return
